@@ -857,11 +857,9 @@ func (t *Table) Select(option ...TableSelectOption) (*Table, error) {
 					}
 				default:
 					if addr, err := netip.ParseAddr(key); err == nil {
-						masklen := 32
-						if t.Family == bgp.RF_IPv6_UC {
-							masklen = 128
-						}
-						for i := masklen; i >= 0; i-- {
+						// the address decides how long a prefix of it can be: an IPv4 address
+						// asked of the IPv6 table (or the reverse) matches nothing
+						for i := addr.BitLen(); i >= 0; i-- {
 							nlri := mustIPAddrPrefix(netip.PrefixFrom(addr, i))
 							if d := t.SelectDestination(nlri, dOption); d != nil {
 								r.setDestination(d)
